@@ -121,6 +121,8 @@ def gen_specs(run):
             alt = verifies[i]["vmembers"][0]
             verifies.append({"mode": rng.choice(["VerifyOnly", "RecoverAndVerify"]), "vmembers": [orig, alt]})
             tags.append(tags[i] + " | right after its original in one batch")
+            verifies.append({"mode": rng.choice(["VerifyOnly", "RecoverAndVerify"]), "vmembers": [orig, alt], "share_params": True})
+            tags.append(tags[i] + " | right after its original in one batch, both statements sharing one parameter object")
             if i % 3 == 0:
                 verifies.append({"mode": "VerifyOnly", "vmembers": [alt, orig]})
                 tags.append(tags[i] + " | right before its original in one batch")
